@@ -161,10 +161,10 @@ Definition lit_max_age_eq : str := [109;97;120;45;97;103;101;61].
 (* math.MaxInt64 / int64(time.Second) *)
 Definition max_age_cap : Z := max_int64 / second.
 
-(* one iteration of the loop; the bool is "a max-age value failed to parse" *)
-Definition cc_step (acc : cc * bool) (raw : str) : cc * bool :=
+(* one iteration of the loop on the trimmed, lower-cased directive; the bool is
+   "a max-age value failed to parse" (the error parseCacheControl returns) *)
+Definition cc_tok (acc : cc * bool) (d : str) : cc * bool :=
   let '(c, bad) := acc in
-  let d := go_lower (go_trim raw) in
   if str_eqb d lit_no_cache || str_eqb d lit_no_store || str_eqb d lit_private then
     ({| no_cache := true; max_age := max_age c |}, bad)
   else
@@ -178,6 +178,10 @@ Definition cc_step (acc : cc * bool) (raw : str) : cc * bool :=
             else ({| no_cache := no_cache c; max_age := wrap64 (Z.min v max_age_cap * second) |}, bad)
         end
     end.
+
+Definition directive_of (raw : str) : str := go_lower (go_trim raw).
+
+Definition cc_step (acc : cc * bool) (raw : str) : cc * bool := cc_tok acc (directive_of raw).
 
 (* returns the directives and whether the Go function returns a non-nil error *)
 Definition parse_cc (h : str) : cc * bool :=
